@@ -17,6 +17,7 @@ import AcnProofs.Lemmas.StochasticDet
 import AcnProofs.Lemmas.StochasticStarve
 import AcnProofs.Lemmas.StochasticEventCore
 import AcnProofs.Lemmas.StochasticLoopInst
+import AcnProofs.Lemmas.SimStochastic
 
 namespace Acn.C19
 open Acn Acn.Stoch
@@ -404,16 +405,17 @@ theorem end_to_end_properties (cfg : Cfg) (hq : ValidQ cfg) (hst : cfg.stations.
     · exact Or.inr ⟨st, hm, ho⟩
 
 /-
-  FULL STATEMENT (not proved): `end_to_end` for the full simulator model `Acn.Sim` (pilot matrix,
-  EVSEs, batteries, rates) with `StochasticNetwork` in place of `ChargingNetwork`, obtained through
-  a projection lemma like `Acn.C01.sim_body_core`.  `Acn.Sim` is built on `Core.occ` with
-  pre-assigned stations (the deterministic network), so this needs a `Sim` over `CoreG σ` /
-  `bodyGP` (sim-core); `sim_body_core` as it stands speaks about `EventCore.body` only.
-  PROVED instead: `fully_charged` no longer is an input.  The charging stage of every period is
+  FULL STATEMENT: `end_to_end` for the full simulator model `Acn.Sim` (pilot matrix, EVSEs,
+  batteries, rates) with `StochasticNetwork` in place of `ChargingNetwork` — PROVED below as
+  `end_to_end_sim` (model `AcnModel/SimStochastic.lean`, loop `runGM` with mutating, possibly raising
+  scheduler / apply stages).  What follows here is the intermediate statement that is still in use
+  (driver `loop_ledger`): `fully_charged` is not an input, the charging stage of every period is
   modelled inside the loop as ANY function `led.charge t net ledger` of the period, of who is
   plugged where, and of the ledger so far (any scheduler, any pilots, any battery law), and
   `fully_charged` is read off the ledger (`led.full`); e.g. `energyLedger requested rate eps`:
-  delivered energy per session, full when `requested - delivered ≤ eps` (ev.py:100-112).
+  delivered energy per session, full when `requested - delivered ≤ eps` (ev.py:100-112).  It keeps
+  its name `_partial` because a `Ledger` cannot raise and does not see `_resolve`, i.e. it cannot
+  express the scheduler stage of the real loop; `end_to_end_sim` has no such restriction.
 -/
 open Acn.EventCore in
 theorem end_to_end_ledger_partial {L : Type} (led : Ledger L) (l0 : L) (cfg : Cfg) (hq : ValidQ cfg)
@@ -452,5 +454,148 @@ example : EventCore.ValidQ
     { stations := ["S0"], sessions := [⟨"a", "S0", 0, 4⟩, ⟨"b", "S0", 1, 3⟩, ⟨"c", "S0", 1, 4⟩],
       recomputes := [(1, "r0")], maxRecompute := none } := by
   constructor <;> simp
+
+/-! ### end to end, FULL simulator: pilots, EVSEs, batteries, energies on the stochastic network -/
+
+section sim
+variable {K : Type} [Add K] [Sub K] [Mul K] [Div K] [Neg K] [LT K] [LE K]
+  [DecidableLT K] [DecidableLE K] [OfNat K 0] [OfNat K 1] [NatCast K] [HasExp K]
+
+open Acn.EventCore in
+/-- END TO END, FULL SIMULATOR.  `SimSt.run` is `Simulator.run` with a `StochasticNetwork`: sim-core's
+    loop with CPython's heap, the scheduler stage and the apply stage of `Acn.Sim` themselves
+    (`Sim.schedStage`; `Sim.applyStage` = `_increase_width`, `update_pilots` over the stations in order
+    with the EV that the stochastic network has plugged in THERE, `_store_actual_charging_rates`),
+    `EVSE.unplug` resetting the pilot, and `post_charging_update` with `EV.fully_charged` COMPUTED from
+    the energy the model itself has delivered (`SimSt.fullOf`, threshold `cfg.fullEps`).
+    For EVERY configuration with distinct session ids, `0 ≤ arrival < departure` (`ValidQ`) and
+    duplicate-free station ids — any EVSE kinds, voltages, batteries (ideal / two-stage, any noise
+    stream), requests, period, tolerances, over any carrier `K` —, every choice stream `cs`, early
+    departure on or off, EVERY scheduler `sched` (it may look at the whole `View`, return anything,
+    raise), after ANY number `n` of iterations:
+      * the network state is `Good` for the `event_history` so far (so `place_unique`,
+        `no_wait_while_free`, `fifo_admission`, `waiting_iff_station_none`, `never_charged_counts`,
+        `stale_unplug_noop` apply; spelled out in `end_to_end_sim_properties`) — also in the state a
+        raising run leaves behind;
+      * if nothing was raised (`r = none`): the iteration counter is `min n horizon`, the history is
+        key-sorted, and once `n ≥ horizon` the queue is empty, the loop has stopped at `horizon`, every
+        plugged-in session has been unplugged, nobody waits and no station is occupied;
+      * if something was raised, it was raised by the scheduler stage or by the apply stage (a failing
+        scheduler, an invalid schedule, `InvalidRateError`, a battery guard) before the horizon —
+        NEVER by the network: no `KeyError` from `unplug`, no `StationOccupiedError`, whatever the
+        energies make `fully_charged` say. -/
+theorem end_to_end_sim (cfg : Sim.Cfg K) (hq : ValidQ cfg.core) (hst : (cfg.stations.map (·.id)).Nodup)
+    (early : Bool) (cs : Nat → Nat) (sched : Sim.View K → Except EventCore.Err (Sim.Schedule K)) (n : Nat) :
+    ∃ g r, SimSt.run cs cfg sched n (SimSt.init cfg early) = (g, r) ∧
+      Good g.net.1 g.core.eventHist ∧
+      (r = none →
+        g.core.iter = min n (EventCore.horizon cfg.core) ∧
+        g.core.eventHist.Pairwise (fun a b => a.keyLe b = true) ∧
+        (EventCore.horizon cfg.core ≤ n →
+          g.core.pending = [] ∧ g.core.resolve = false ∧
+          (∀ e ∈ g.core.eventHist, e.kind = .plugin →
+            ∃ u ∈ g.core.eventHist, u.kind = .unplug ∧ u.sess = e.sess) ∧
+          g.net.1.waiting = [] ∧ ∀ st, g.net.1.occ st = none)) ∧
+      (∀ e, r = some e → g.core.iter < min n (EventCore.horizon cfg.core) ∧
+        (RaisedBy (SimSt.schedS cfg sched) e ∨ RaisedBy (SimSt.applyS cfg) e)) := by
+  obtain ⟨h0, g0⟩ := initG_inv (σ := SimSt.St K) hq heapQ_ok (net0 cfg.core early, SimSt.numOf (Sim.init cfg))
+  obtain ⟨g, r, hr, hP, hI, hE⟩ := runGM_spec hq heapQ_ok (SimSt.sim_noFail cfg hq cs)
+    (SimSt.schedS_keeps cfg sched (LoopInv cfg.core)) (SimSt.applyS_keeps cfg (LoopInv cfg.core)) n 0
+    (SimSt.init cfg early) h0 g0 (loopInv_init cfg.core hst early) (Nat.zero_le _)
+  have hgood : Good g.net.1 g.core.eventHist := ⟨hP.inv, hP.track⟩
+  refine ⟨g, r, hr, hgood, fun hn => ?_, fun e he => by simpa using hE e he⟩
+  have hI := hI hn
+  refine ⟨by simpa using hI.iter, hI.hist_sorted, fun hh => ?_⟩
+  rw [Nat.zero_add, Nat.min_eq_right hh] at hI
+  have hp : g.core.pending = [] := by
+    by_contra h
+    exact absurd ((pendingG_ne_nil_iff hq hI).1 h) (lt_irrefl _)
+  have hall := hist_complete_at_horizon hq hI
+  exact ⟨hp, hI.resolve, hall, all_gone_at_end hgood hall⟩
+
+/-- the C19 conclusions in every state the full simulator reaches (every loop head, and the state
+    in which a raising scheduler / pilot stage stops the run), spelled out -/
+theorem end_to_end_sim_properties (cfg : Sim.Cfg K) (hq : EventCore.ValidQ cfg.core)
+    (hst : (cfg.stations.map (·.id)).Nodup) (early : Bool) (cs : Nat → Nat)
+    (sched : Sim.View K → Except EventCore.Err (Sim.Schedule K)) (n : Nat) :
+    ∃ g r, SimSt.run cs cfg sched n (SimSt.init cfg early) = (g, r) ∧
+      (∀ st st' x, g.net.1.occ st = some x → g.net.1.occ st' = some x → st = st') ∧
+      g.net.1.waiting.Nodup ∧
+      (∀ x, x ∈ g.net.1.waiting → ∀ st, g.net.1.occ st ≠ some x) ∧
+      (∀ x, Present g.net.1 x → x ∈ g.net.1.waiting ∨ ∃ st ∈ g.net.1.stations, g.net.1.occ st = some x) ∧
+      (g.net.1.waiting ≠ [] → g.net.1.free = []) ∧
+      g.net.1.waiting = g.net.1.arrivals.filter g.net.1.waits ∧
+      g.net.1.neverCharged =
+        g.net.1.arrivals.countP (fun x => (g.net.1.ev x).departed && !(g.net.1.ev x).plugged) := by
+  obtain ⟨g, r, hr, hgood, _, _⟩ := end_to_end_sim cfg hq hst early cs sched n
+  obtain ⟨hpu1, hpu2, hpu3, hpu4⟩ := place_unique hgood
+  refine ⟨g, r, hr, hpu2, hpu3, ?_, ?_, no_wait_while_free hgood, (fifo_admission hgood).1,
+    (never_charged_counts hgood).1⟩
+  · intro x hx st hc
+    rcases hpu1 x (hpu4 x (Or.inl hx)) with ⟨_, h2⟩ | ⟨h1, _⟩
+    · exact h2 st hc
+    · exact h1 hx
+  · intro x hx
+    rcases hpu1 x hx with ⟨h1, _⟩ | ⟨_, st, hm, ho, _⟩
+    · exact Or.inl h1
+    · exact Or.inr ⟨st, hm, ho⟩
+
+end sim
+
+section simex
+local instance : HasExp ℚ := ⟨fun x => x⟩
+
+/-- one station (1000 V, 60-minute periods, so 1 A for one period is 1 kWh), three overlapping
+    sessions all carrying the station id "S0": `a` asks for 3 kWh and may draw 7 A, `b` leaves while it
+    is still waiting, `c` waits for `a` -/
+def exSimCfg : Sim.Cfg ℚ :=
+  { stations := [⟨"S0", .cont 0 (some 32), 1000⟩],
+    evs := [{ session := "a", station := "S0", arrival := 0, departure := 4, estDeparture := 4, requested := 3,
+              delivered := 0, rate := 0, batt := ⟨40, 5, 5, 7, 0, false, 0, 0, .continuous⟩ },
+            { session := "b", station := "S0", arrival := 1, departure := 2, estDeparture := 2, requested := 9,
+              delivered := 0, rate := 0, batt := ⟨10, 8, 8, 7, 0, false, 0, 0, .continuous⟩ },
+            { session := "c", station := "S0", arrival := 1, departure := 4, estDeparture := 4, requested := 5,
+              delivered := 0, rate := 0, batt := ⟨20, 2, 2, 4, 0, false, 0, 0, .continuous⟩ }],
+    recomputes := [(1, "r0")], maxRecompute := some 1, period := 60, atolCont := 1 / 1000,
+    atolDeadband := 1 / 1000, atolFinite := 1 / 1000, fullEps := 1 / 1000, noise := [] }
+
+/-- 16 A for every active session, at the station where it sits NOW -/
+def exSimSched : Sim.View ℚ → Except EventCore.Err (Sim.Schedule ℚ) :=
+  fun v => .ok (v.active.map fun e => (e.station, [16]))
+
+/-- the hypotheses of `end_to_end_sim` hold for it -/
+example : EventCore.ValidQ exSimCfg.core ∧ (exSimCfg.stations.map (·.id)).Nodup := by
+  refine ⟨?_, by decide +kernel⟩
+  constructor <;> simp [exSimCfg, Sim.Cfg.core, Sim.sessionOf]
+
+/-- … and the run is not trivial: with early departure, `a` has its 3 kWh after period 0
+    (`fully_charged` computed: 3 - 7 ≤ 1/1000) but stays, because nobody waits; in period 1 `b` and `c`
+    arrive and queue, `a` is unplugged early and `b` (FIFO) gets the station; `b` departs at 2 and `c`
+    is swapped in; nothing is raised, the loop stops at the horizon 5 with the site empty; the energies
+    are the ones the batteries accept (7 + 7, 2, 4 + 4 + 0 kWh) -/
+example :
+    (SimSt.run (fun _ => 0) exSimCfg exSimSched 9 (SimSt.init exSimCfg true)).2 = none ∧
+    (SimSt.run (fun _ => 0) exSimCfg exSimSched 9 (SimSt.init exSimCfg true)).1.core.iter = 5 ∧
+    (SimSt.run (fun _ => 0) exSimCfg exSimSched 2 (SimSt.init exSimCfg true)).1.net.1.occ "S0" = some "b" ∧
+    (SimSt.run (fun _ => 0) exSimCfg exSimSched 2 (SimSt.init exSimCfg true)).1.net.1.waiting = ["c"] ∧
+    (SimSt.run (fun _ => 0) exSimCfg exSimSched 9 (SimSt.init exSimCfg true)).1.net.1.earlyUnplug = 1 ∧
+    (SimSt.run (fun _ => 0) exSimCfg exSimSched 9 (SimSt.init exSimCfg true)).1.net.1.swaps = 2 ∧
+    (SimSt.run (fun _ => 0) exSimCfg exSimSched 9 (SimSt.init exSimCfg true)).1.net.2.evs.map (·.delivered)
+      = [14, 2, 8] ∧
+    (SimSt.run (fun _ => 0) exSimCfg exSimSched 9 (SimSt.init exSimCfg true)).1.net.2.rates.rows
+      = [[7, 7, 2, 4, 4]] := by
+  decide +kernel
+
+/-- a raising scheduler stops the run in the period where it raises, with the network as it was -/
+example :
+    (SimSt.run (fun _ => 0) exSimCfg
+      (fun v => if v.iter = 1 then .error .schedulerFailed else exSimSched v) 9 (SimSt.init exSimCfg true)).2
+        = some .schedulerFailed ∧
+    (SimSt.run (fun _ => 0) exSimCfg
+      (fun v => if v.iter = 1 then .error .schedulerFailed else exSimSched v) 9 (SimSt.init exSimCfg true)).1.net.1.waiting
+        = ["b", "c"] := by
+  decide +kernel
+
+end simex
 
 end Acn.C19
